@@ -120,7 +120,7 @@ func (e *Enc) instr(ins ssa.Instruction) {
 			c, isC := x.Results[n-1].(*ssa.Const)
 			okRet = isC && c.Value == nil
 		}
-		e.rets = append(e.rets, retInfo{reach: e.reach[e.cur], vals: vs, st: e.st, okRet: okRet, pos: posStr(e.fn.Prog.Fset, x.Pos())})
+		e.rets = append(e.rets, retInfo{reach: e.reach[e.cur], vals: vs, st: e.st, okRet: okRet, pos: posStr(e.fn.Prog.Fset, x.Pos()), blk: e.r.curBlock})
 	case *ssa.Panic:
 		e.explicitPanic(x)
 	case *ssa.RunDefers:
